@@ -50,6 +50,10 @@ CHECKS = {
          "Exploration: every parameter-slot type x argument kind, an arity matrix over 0-3 fixed parameters x 12 tails x 12 result shapes, the full product of 684 signatures with every call of <=2 (thorough <=3) arguments of 18 kinds, with and without a block; the recorded invocation (values received, HasBlock/Block, evaluate-once left-to-right order) must equal what a reference binder derives from the statement, errors must name the call and leave the function uninvoked.",
          "Calls that omit non-auto trailing parameters or have too few arguments are counted as unspecified, not asserted.",
          "DESIGN.md §4 C12"),
+ "C02": ("exhaustive short strings against an independent reference text scanner + exhaustive string-literal values + rapid segment sequences with an entity-decoding output matcher + native go fuzz of the text scanner",
+         "Exploration: every string of <=6 symbols over {a \\ < % > = # \"} that the reference scanner classifies as literal text in 6 frames, every string value of <=5 symbols over a 9-symbol alphabet as double- and back-quoted literal, and random interleavings of text, output tags, 21 kinds of silent tags and comments at top level and nested in if/else/for/function/block-helper bodies must render to exactly the expected part list.",
+         "NUL and >=3 backslashes before <% are outside the statement; the reference scanner and the matcher are the trusted base.",
+         "DESIGN.md §4 C02"),
 }
 
 NOT_BUILT = "check not built yet in this session (see DESIGN.md §4 for its plan); will be claimed once its check is committed"
